@@ -3176,8 +3176,14 @@ def stale_memo(sm, new_locs):
             if re.search(r"(?<![\w.])_v\d+\b", v.split(" = ", 1)[-1] if " = " in v else v):
                 # the value is built in a local (a stream, a list) by loops that run when the memo is filled: what those loops
                 # range over is what the value is computed from
+                vlocals = set(re.findall(r"(?<![\w.])(_v\d+)\b", v.split(" = ", 1)[-1] if " = " in v else v))
+                filling = set()
                 for it2 in sm.items:
-                    if it2.kind == "loop-iter" and " in " in it2.head:
+                    mloop = re.search(r" in (loop\d+)\b", it2.head)
+                    if it2.kind == "effect" and mloop and any(re.search(r"(?<![\w.])%s\b" % vl, it2.head.split(" in loop")[0]) for vl in vlocals):
+                        filling.add(mloop.group(1))
+                for it2 in sm.items:
+                    if it2.kind == "loop-iter" and " in " in it2.head and it2.head.split(" ", 1)[0] in filling:
                         from_value = from_value | state_reads(it2.head.split(" in ", 1)[1], {loc})
             computed_from |= from_value
             if not from_value and (it.head.startswith("call %s." % loc) or re.fullmatch(r"\s*(True|False|None|-?\d+|'[^']*'|b'[^']*')\s*", v.split(" = ", 1)[-1] if " = " in v else v)):
